@@ -299,10 +299,10 @@ STEER_CONFIGS = {
                           pub_topics={"h0": ["a"], "h1": ["a"], "h2": ["a"], "h3": ["a"]}, downs=[], last_ids={"s0": "h0", "s1": "h1"},
                           pub_after={"h1": "h0", "h2": "h1", "h3": "h2"}, cancel_subs=[], faults=1, rcap=2), 0, ["finite-manual"],
                      "a replayer of 2 slots, 4 messages: the presented ID may be evicted when the replay starts; one fault"),
-    "resume-wrap": (dict(subs=["s0", "s1"], sub_topics={"s0": ["a"], "s1": ["a"]}, pubs=["h0", "h1", "h2", "h3", "h4", "p0k0"],
-                         pub_topics={p: ["a"] for p in ["h0", "h1", "h2", "h3", "h4", "p0k0"]}, downs=[], last_ids={"s0": "h2", "s1": "h3"},
-                         pub_after={"h1": "h0", "h2": "h1", "h3": "h2", "h4": "h3"}, cancel_subs=[], faults=1, rcap=4, sub_after=5, fault_kinds=("send", "flush"), fault_odds=3), 0, ["finite-manual"],
-                    "a replayer of 4 slots after 5-6 messages (the ring has wrapped: a replay walks over the physical end of the buffer), one failing replayed Send / Flush"),
+    "resume-wrap": (dict(subs=["s0", "s1"], sub_topics={"s0": ["a"], "s1": ["a"]}, pubs=["h0", "h1", "h2", "h3", "h4"],
+                         pub_topics={p: ["a"] for p in ["h0", "h1", "h2", "h3", "h4"]}, downs=[], last_ids={"s0": "h2", "s1": "h1"},
+                         pub_after={"h1": "h0", "h2": "h1", "h3": "h2", "h4": "h3"}, cancel_subs=[], faults=1, rcap=4, sub_after=5, fault_kinds=("send",), fault_odds=1), 0, ["finite-manual"],
+                    "a replayer of 4 slots after 5 messages (the ring has wrapped: a replay walks over the physical end of the buffer), one failing replayed or live Send"),
     "shutdown": (dict(subs=["s0", "s1"], sub_topics={"s0": ["a"], "s1": ["a"]}, pubs=["p0k0", "p1k0"], pub_topics={"p0k0": ["a"], "p1k0": ["a"]},
                       downs=["k1", "k2"], last_ids={}, pub_after={}, cancel_subs=["s0"], ctx_downs=["k2"], faults=1), 1, ["none", "finite-manual"],
                  "2 subscribers, 2 concurrent publishers, 2 Shutdown calls (one with a done context) after the first message, one fault, a cancellation"),
@@ -465,7 +465,7 @@ def run_C06(ctx):
     agg = new_agg()
     model_check(ctx, ["faults"] if ctx.quick else ["faults", "big-faults", "two-shutdowns"], agg)
     trace_check(ctx, "faults", 600 if ctx.quick else 8000, "faults", agg)
-    steer_check(ctx, ["fan3-2f", "replayer-faults", "shutdown"], 150 if ctx.quick else 2500, "c06", agg)
+    steer_check(ctx, ["fan3-2f", "replayer-faults", "shutdown", "resume-wrap"], 120 if ctx.quick else 2500, "c06", agg)
     if not ctx.quick:
         trace_check(ctx, "faults", 1500, "faults-race", agg, race=True)
     joe_evidence(ctx, agg, "NoPanic / NoLateCall / ErrReturned (guard of RetSub) over all interleavings incl. a failure racing the cancellation of the same subscriber; scenarios run in "
